@@ -178,6 +178,90 @@ Fixpoint idx {A} (f : A -> option N) (l : list A) (i : N) : list (N * N) :=
 """
 
 
+def _parse_gpdu(hexs):
+    b = bytes.fromhex(hexs)
+    if len(b) < 12 or b[0] != 0x34 or b[1] != 0xff:
+        return None
+    teid = int.from_bytes(b[4:8], "big")
+    if b[11] == 0x85:
+        if len(b) < 16:
+            return None
+        return teid, b[14] & 0x3f, b[16:].hex()
+    return teid, None, b[12:].hex()
+
+
+def py_monitor(case, impl):
+    """the property read on the implementation's trace: on BUFF->FORW the packets queued (per the implementation's own
+    previous dump) for the FAR's PDRs arrive once, in order, at the peer of the FAR's CURRENT outer header with its TEID
+    and the PDR's QFI; on BUFF->DROP nothing leaves; in both cases those queues are empty afterwards"""
+    fars, pdrs, qers = {}, {}, {}
+    alive = False
+    prevq = {}
+    bad = []
+    for i, (st, o) in enumerate(zip(case, impl)):
+        if o.get("fault"):
+            bad.append((i, "fault: " + o["fault"]))
+            break
+        q = {json.loads(k)[1]: (v or []) for k, v in (o.get("queue") or {}).items() if json.loads(k)[0] == 1}
+        g = [o["gnb"][0] or [], o["gnb"][1] or []]
+        if st["op"] == "est" and not alive:
+            fars, pdrs, qers, alive = {}, {}, {}, True
+        if st["op"] in ("est", "mod") and alive and st.get("seid", 1) == 1:
+            for f in st.get("cfars", []):
+                fars.setdefault(f["id"], {"action": f["action"], "ohc": f.get("ohc")})
+            for x in st.get("cqers", []):
+                qers.setdefault(x["id"], x["qfi"])
+            for x in st.get("cpdrs", []):
+                pdrs.setdefault(x["id"], x)
+            for x in st.get("rpdrs", []):
+                pdrs.pop(x, None)
+            expected_any = False
+            for u in st.get("ufars", []):
+                f = fars.get(u["id"])
+                if f is None:
+                    continue
+                was_buff = bool(f["action"] & 4)
+                if u.get("ohc"):
+                    f["ohc"] = u["ohc"]
+                if u.get("no_apply"):
+                    continue
+                f["action"] = u["action"]
+                if not was_buff:
+                    continue
+                rel = sorted(p for p, x in pdrs.items() if x["far"] == u["id"])
+                if u["action"] & 1:
+                    expected_any = True
+                    if g[0] or g[1]:
+                        bad.append((i, "BUFF->DROP emitted packets"))
+                    if any(q.get(p) for p in rel):
+                        bad.append((i, "BUFF->DROP left packets queued"))
+                elif u["action"] & 2 and f["ohc"] and len(st.get("ufars", [])) == 1:
+                    expected_any = True
+                    want = []
+                    for p in rel:
+                        qfi = next((qers[x] for x in pdrs[p].get("qers", []) if qers.get(x)), None)
+                        want += [(f["ohc"]["teid"], qfi, pk) for pk in prevq.get(p, [])]
+                    got = [_parse_gpdu(x) for x in g[f["ohc"]["gnb"]]]
+                    other = g[1 - f["ohc"]["gnb"]]
+                    if got != want or other:
+                        bad.append((i, "BUFF->FORW: %d packets queued for the FAR's PDRs, the FAR's peer received %s (expected TEID %d), "
+                                    "the other gNB %d datagrams" % (len(want), [x if x is None else (x[0], x[1]) for x in got][:4],
+                                                                   f["ohc"]["teid"], len(other))))
+                    if any(q.get(p) for p in rel):
+                        bad.append((i, "BUFF->FORW left packets queued"))
+            if not expected_any and (g[0] or g[1]) and not st.get("ufars"):
+                bad.append((i, "packets emitted by a request that updates no FAR"))
+        elif st["op"] == "del" and st.get("seid") == 1:
+            alive = False
+            if g[0] or g[1] or q:
+                bad.append((i, "session deletion emitted packets or left queues"))
+        elif st["op"] in ("buffer", "burst"):
+            if g[0] or g[1]:
+                bad.append((i, "a buffer notification emitted packets"))
+        prevq = q
+    return bad
+
+
 def run(ctx, harness, n):
     rnd = random.Random(ctx.seed + 13)
     uniq = [0x100000]
@@ -198,4 +282,10 @@ def run(ctx, harness, n):
         return {"error": "release cases do not compile: " + clog[-1200:], "cases": cases, "impl": impl}
     mm = common.parse_N_list(out["mism"])
     mf = common.parse_N_list(out["monf"])
-    return {"cases": cases, "impl": impl, "mism": list(zip(mm[0::2], mm[1::2])), "monf": list(zip(mf[0::2], mf[1::2]))}
+    monf = list(zip(mf[0::2], mf[1::2]))
+    pyf = []
+    for ci, (c, o) in enumerate(zip(cases, impl)):
+        b = py_monitor(c, o)
+        if b:
+            pyf.append((ci, b[0][0], b[0][1]))
+    return {"cases": cases, "impl": impl, "mism": list(zip(mm[0::2], mm[1::2])), "monf": monf, "pyf": pyf}
